@@ -26,7 +26,8 @@ Definition name_at (f : file) (o : N) : option name := option_map r_name (find_r
 
 Definition rec_layout_ok (limit : N) (r : rec) : Prop :=
   r_off r mod 32 = 0 /\ rec_start <= r_off r /\ r_off r + rsize (r_name r) <= limit /\
-  r_off r / 16384 = (r_off r + rsize (r_name r)) / 16384 /\ nlen (r_name r) <= c_maxNameLen.
+  r_off r / 16384 = (r_off r + rsize (r_name r)) / 16384 /\ nlen (r_name r) <= c_maxNameLen /\
+  1 <= nlen (r_name r).
 
 Definition wf_layout (f : file) : Prop :=
   f_size f mod 16384 = 0 /\ c_minFileLen <= f_size f /\ f_limit f <= f_size f /\ f_limit f < W32 /\
@@ -64,7 +65,8 @@ Definition act_pre (me : nat) (f : file) (a : act) : Prop :=
   match a with
   | AExtend e => e mod 16384 = 0
   | AReserve me' s e nm =>
-      me' = me /\ place (f_limit f) nm = (s, e) /\ e <= f_size f /\ nlen nm <= c_maxNameLen /\ e + PAGE <= W32
+      me' = me /\ place (f_limit f) nm = (s, e) /\ e <= f_size f /\ nlen nm <= c_maxNameLen /\ e + PAGE <= W32 /\
+      1 <= nlen nm
   | ACopy off => owned_unlinked me f off
   | ALen off => owned_unlinked me f off
   | ANext off v => owned_unlinked me f off
@@ -179,7 +181,7 @@ Proof.
       destruct X as (r & I & O). rewrite (overlaps_tail_false _ e r (L r I) Pre) in O. discriminate.
     + apply (wf_chains_pres f); [reflexivity| |exact WC]. intros; eauto 10.
   - (* AReserve *)
-    destruct Pre as (-> & Pl & Es & Nm & Rg).
+    destruct Pre as (-> & Pl & Es & Nm & Rg & Np).
     destruct WL as (A & B & C & D & E & L & P & ND & DM).
     destruct (place_spec nlen H _ _ _ _ Pl Nm) as (P1 & P2 & P3 & P4 & P5).
     destruct (rsize_facts nlen nm) as (R1 & R2 & R3 & R4).
@@ -191,7 +193,7 @@ Proof.
     split.
     + unfold wf_layout; cbn. splits; try assumption; try (unfold_consts; lia).
       * intros r I. apply in_app_iff in I. destruct I as [I|[<-|[]]].
-        -- destruct (L r I) as (X1 & X2 & X3 & X4 & X5). unfold rec_layout_ok. splits; try assumption. lia.
+        -- destruct (L r I) as (X1 & X2 & X3 & X4 & X5 & X6). unfold rec_layout_ok. splits; try assumption. lia.
         -- unfold rec_layout_ok; cbn. splits; try assumption; try lia. rewrite <- P4. exact P5.
       * intros r1 r2 I1 I2 Lt. apply in_app_iff in I1, I2.
         destruct I1 as [I1|[<-|[]]]; destruct I2 as [I2|[<-|[]]]; cbn in *.
@@ -352,13 +354,13 @@ Definition in_add (p : pc) : bool := match p with ALoad | ACas => true | _ => fa
 Definition pc_inv (me : nat) (f : file) (t : thread) : Prop :=
   let nm := t_nm t in let b := bucket nm in
   match t_pc t with
-  | LHead | RLimit | RMap => nlen nm <= c_maxNameLen
+  | LHead | RLimit | RMap => 1 <= nlen nm /\ nlen nm <= c_maxNameLen
   | LLen | LNext =>
-      nlen nm <= c_maxNameLen /\ inch f b (t_head t) /\ In (t_off t) (f_chain f b) /\ walked f b nm (t_head t) (t_off t)
+      (1 <= nlen nm /\ nlen nm <= c_maxNameLen) /\ inch f b (t_head t) /\ In (t_off t) (f_chain f b) /\ walked f b nm (t_head t) (t_off t)
   | PLimit | EStat | EWrite | EMap =>
-      nlen nm <= c_maxNameLen /\ inch f b (t_head t) /\ fresh_from f b nm (t_head t)
+      (1 <= nlen nm /\ nlen nm <= c_maxNameLen) /\ inch f b (t_head t) /\ fresh_from f b nm (t_head t)
   | PCas =>
-      nlen nm <= c_maxNameLen /\ inch f b (t_head t) /\ fresh_from f b nm (t_head t) /\
+      (1 <= nlen nm /\ nlen nm <= c_maxNameLen) /\ inch f b (t_head t) /\ fresh_from f b nm (t_head t) /\
       place (t_lim t) nm = (t_start t, t_end t) /\ t_end t <= t_map t /\ t_end t + PAGE <= W32
   | WCopy => inch f b (t_head t) /\ fresh_from f b nm (t_head t) /\ mine me f (t_start t) nm false false
   | WLen => inch f b (t_head t) /\ fresh_from f b nm (t_head t) /\ mine me f (t_start t) nm true false
@@ -482,9 +484,10 @@ Proof.
   intros me f ops. induction ops as [|o ops IH]; intros t (M0 & M1 & S & Bg) C.
   - cbn. unfold tinv, pc_inv; cbn. splits; auto.
   - destruct o as [nm|k]; cbn [FileConc.dispatch].
-    + destruct (c_maxNameLen <? nlen nm) eqn:Q.
+    + destruct (nlen nm =? 0) eqn:Q0; [apply IH; [unfold base; cbn; splits; auto|left; reflexivity]|].
+      apply N.eqb_neq in Q0. destruct (c_maxNameLen <? nlen nm) eqn:Q.
       * apply IH; [unfold base; cbn; splits; auto|left; reflexivity].
-      * apply N.ltb_ge in Q. unfold tinv, pc_inv; cbn. splits; auto. left; reflexivity.
+      * apply N.ltb_ge in Q. unfold tinv, pc_inv; cbn. splits; auto; try lia. left; reflexivity.
     + destruct (t_cell t =? 0) eqn:Q.
       * apply IH; [unfold base; splits; auto|exact C].
       * apply N.eqb_neq in Q. unfold tinv, pc_inv; cbn. splits; auto. rewrite Bg. reflexivity.
@@ -505,31 +508,31 @@ Proof.
 Qed.
 
 Lemma look_fail_tinv : forall me f t, base f t -> cell_ok f (t_nm t) (t_cell t) ->
-  nlen (t_nm t) <= c_maxNameLen -> tinv me f (look_fail t).
+  1 <= nlen (t_nm t) /\ nlen (t_nm t) <= c_maxNameLen -> tinv me f (look_fail t).
 Proof.
   intros me f t B C Nm. unfold FileConc.look_fail. destruct (10 <=? t_tries t).
   - apply ret_fail_tinv; exact B.
-  - destruct B as (M0 & M1 & S & Bg). unfold tinv, pc_inv; cbn. splits; auto.
+  - destruct B as (M0 & M1 & S & Bg). destruct Nm. unfold tinv, pc_inv; cbn. splits; auto.
 Qed.
 
 Lemma suf_zero : forall f b, wf_shared f -> suf 0 (f_chain f b) = [].
 Proof. intros f b W. apply suf_notin. apply zero_not_linked. exact W. Qed.
 
-Lemma look_at_tinv : forall me f t off n, wf_shared f -> base f t -> nlen (t_nm t) <= c_maxNameLen ->
+Lemma look_at_tinv : forall me f t off n, wf_shared f -> base f t -> 1 <= nlen (t_nm t) /\ nlen (t_nm t) <= c_maxNameLen ->
   cell_ok f (t_nm t) (t_cell t) ->
   inch f (bucket (t_nm t)) (t_head t) -> inch f (bucket (t_nm t)) off ->
   walked f (bucket (t_nm t)) (t_nm t) (t_head t) off ->
   tinv me f (look_at t off n).
 Proof.
-  intros me f t off n W B Nm Cz Ih Io Wk. unfold FileConc.look_at.
+  intros me f t off n W B [Nm1 Nm2] Cz Ih Io Wk. unfold FileConc.look_at.
   destruct (off =? 0) eqn:Q0.
   - apply N.eqb_eq in Q0. subst off. destruct B as (M0 & M1 & S & Bg).
     unfold tinv, pc_inv; cbn. splits; auto.
     destruct Wk as (pre & E & P). rewrite suf_zero, app_nil_r in E by exact W.
     intros x Ix. apply P. rewrite <- E. exact Ix.
   - apply N.eqb_neq in Q0.
-    destruct ((t_map t / UNIT <? n) || (off <? H + c_hashOff) || (t_map t <? off + 16)).
-    + apply look_fail_tinv; assumption.
+    destruct ((t_map t / UNIT <? n) || (off <? H + c_hashOff) || negb (off mod 8 =? 0) || (t_map t <? off + 16)).
+    + apply look_fail_tinv; auto.
     + destruct B as (M0 & M1 & S & Bg). unfold tinv, pc_inv; cbn. splits; auto.
       destruct Io; [contradiction|assumption].
 Qed.
@@ -547,9 +550,9 @@ Proof.
     unfold tinv, pc_inv; cbn. splits; auto.
     destruct Wk as (pre & E & P). intros x Ix. rewrite E in Ix. apply in_app_iff in Ix.
     destruct Ix as [Ix|Ix]; [apply P; exact Ix|apply Fo; exact Ix].
-  - destruct ((off <? H + c_hashOff) || (t_map t <? off + 16)) eqn:G.
+  - destruct ((off <? H + c_hashOff) || negb (off mod 8 =? 0) || (t_map t <? off + 16)) eqn:G.
     + apply ret_fail_tinv; exact B.
-    + apply orb_false_iff in G. destruct G as [G _]. apply N.ltb_ge in G.
+    + apply orb_false_iff in G. destruct G as [G _]. apply orb_false_iff in G. destruct G as [G _]. apply N.ltb_ge in G.
       destruct B as (M0 & M1 & S & Bg). unfold tinv, pc_inv; cbn. splits; auto.
       destruct Iof as [->|I]; [unfold_consts; lia|exact I].
 Qed.
@@ -614,7 +617,7 @@ Definition post (me : nat) (f : file) (t : thread) (oa : option act) (t' : threa
 Lemma succ_dispatch : forall ops t, t_succ (dispatch ops t) = t_succ t.
 Proof.
   induction ops as [|o ops IH]; intro t; [reflexivity|]. destruct o as [nm|k]; cbn [FileConc.dispatch].
-  - destruct (c_maxNameLen <? nlen nm); [rewrite IH|]; reflexivity.
+  - destruct (nlen nm =? 0); [rewrite IH; reflexivity|]. destruct (c_maxNameLen <? nlen nm); [rewrite IH|]; reflexivity.
   - destruct (t_cell t =? 0); [apply IH|reflexivity].
 Qed.
 Lemma succ_ret_cell : forall c t, t_succ (ret_cell c t) = t_succ t.
@@ -660,7 +663,7 @@ Qed.
 
 Lemma post_LLen : t_pc t = LLen -> goal.
 Proof.
-  intro Pc. tinv_parts T. use_pc Pc. destruct P as (Nm & Ih & Io & Wk).
+  intro Pc. tinv_parts T. use_pc Pc. destruct P as ([Nm1 Nm2] & Ih & Io & Wk).
   destruct (_ || _); sg.
   - split; [|rewrite succ_look_fail; reflexivity]. apply look_fail_tinv; auto. apply base_of; auto.
   - split; [|reflexivity]. unfold tinv, pc_inv; cbn. splits; auto.
@@ -668,7 +671,7 @@ Qed.
 
 Lemma post_LNext : t_pc t = LNext -> goal.
 Proof.
-  intro Pc. tinv_parts T. use_pc Pc. destruct P as (Nm & Ih & Io & Wk).
+  intro Pc. tinv_parts T. use_pc Pc. destruct P as ([Nm1 Nm2] & Ih & Io & Wk).
   destruct (name_eq f (t_off t) (t_nm t)) eqn:Q; sg.
   - split; [|rewrite succ_ret_cell; reflexivity]. apply ret_cell_tinv; [apply base_of; auto|].
     right. split; [exact Io|apply name_eq_true; exact Q].
@@ -678,7 +681,7 @@ Qed.
 
 Lemma post_RLimit : t_pc t = RLimit -> goal.
 Proof.
-  intro Pc. tinv_parts T. use_pc Pc. destruct (f_limit f <=? t_map t); sg.
+  intro Pc. tinv_parts T. use_pc Pc. destruct P as [Nm1 Nm2]. destruct (f_limit f <=? t_map t); sg.
   - split; [|rewrite succ_ret_fail; reflexivity]. apply ret_fail_tinv. apply base_of; auto.
   - split; [|reflexivity]. unfold tinv, pc_inv; cbn. splits; auto.
 Qed.
@@ -688,14 +691,14 @@ Proof. destruct W as [(A & B & _) _]. split; [exact B|lia]. Qed.
 
 Lemma post_RMap : t_pc t = RMap -> goal.
 Proof.
-  intro Pc. tinv_parts T. use_pc Pc. destruct (f_size f <? t_lim t); sg.
+  intro Pc. tinv_parts T. use_pc Pc. destruct P as [Nm1 Nm2]. destruct (f_size f <? t_lim t); sg.
   - split; [|rewrite succ_ret_fail; reflexivity]. apply ret_fail_tinv. apply base_of; auto.
   - split; [|reflexivity]. unfold tinv, pc_inv; cbn. splits; auto using size_ok.
 Qed.
 
 Lemma post_PLimit : t_pc t = PLimit -> goal.
 Proof.
-  intro Pc. tinv_parts T. use_pc Pc. destruct P as (Nm & Ih & Fr).
+  intro Pc. tinv_parts T. use_pc Pc. destruct P as ([Nm1 Nm2] & Ih & Fr).
   destruct (place (f_limit f) (t_nm t)) as [s e] eqn:Pl.
   destruct (W32 <=? e + PAGE) eqn:Q1; sg.
   - split; [|rewrite succ_ret_fail; reflexivity]. apply ret_fail_tinv. apply base_of; auto.
@@ -707,7 +710,7 @@ Qed.
 Lemma post_EStat : t_pc t = EStat -> goal.
 Proof.
   intro Pc. tinv_parts T. use_pc Pc. sg. split; [|reflexivity].
-  unfold tinv, pc_inv; cbn. destruct P as (Nm & Ih & Fr). splits; auto.
+  unfold tinv, pc_inv; cbn. destruct P as ([Nm1 Nm2] & Ih & Fr). splits; auto.
 Qed.
 
 Lemma act_frame_any : forall j a, act_pre me f a ->
@@ -724,7 +727,7 @@ Qed.
 Lemma post_EWrite : t_pc t = EWrite -> goal.
 Proof.
   intro Pc. assert (T' : tinv me f (set_pc EMap t)).
-  { tinv_parts T. rewrite Pc in *. cbn [in_add] in *. destruct P as (Nm & Ih & Fr). unfold tinv, pc_inv; cbn. splits; auto. }
+  { tinv_parts T. rewrite Pc in *. cbn [in_add] in *. destruct P as ([Nm1 Nm2] & Ih & Fr). unfold tinv, pc_inv; cbn. splits; auto. }
   use_pc Pc. destruct (t_sz t <? round (t_end t) PAGE); sg.
   - assert (Pre : act_pre me f (AExtend (round (t_end t) PAGE))) by (cbn; apply round_page).
     split; [exact Pre|]. split; [|reflexivity].
@@ -734,7 +737,7 @@ Qed.
 
 Lemma post_EMap : t_pc t = EMap -> goal.
 Proof.
-  intro Pc. tinv_parts T. use_pc Pc. destruct P as (Nm & Ih & Fr).
+  intro Pc. tinv_parts T. use_pc Pc. destruct P as ([Nm1 Nm2] & Ih & Fr).
   destruct (f_size f <? round (t_end t) PAGE); sg.
   - split; [|rewrite succ_ret_fail; reflexivity]. apply ret_fail_tinv. apply base_of; auto.
   - split; [|reflexivity]. unfold tinv, pc_inv; cbn. splits; auto using size_ok.
@@ -747,7 +750,7 @@ Qed.
 
 Lemma post_PCas : t_pc t = PCas -> goal.
 Proof.
-  intro Pc. pose proof T as T0. tinv_parts T. use_pc Pc. destruct P as (Nm & Ih & Fr & Pl & En & Rg).
+  intro Pc. pose proof T as T0. tinv_parts T. use_pc Pc. destruct P as ([Nm1 Nm2] & Ih & Fr & Pl & En & Rg).
   destruct (f_limit f =? t_lim t) eqn:Q; sg.
   - apply N.eqb_eq in Q.
     assert (Pre : act_pre me f (AReserve me (t_start t) (t_end t) (t_nm t))).
@@ -756,7 +759,7 @@ Proof.
     pose proof (act_evolve me f _ W Pre) as Ev.
     (* the new record is ours *)
     pose proof W as [WL WC]. destruct WL as (_ & _ & _ & _ & E0 & L & _).
-    destruct (place_spec nlen H _ _ _ _ Pl Nm) as (P1 & P2 & P3 & P4 & P5).
+    destruct (place_spec nlen H _ _ _ _ Pl Nm2) as (P1 & P2 & P3 & P4 & P5).
     assert (Fresh : find_rec (t_start t) (f_recs f) = None).
     { destruct (find_rec (t_start t) (f_recs f)) as [r|] eqn:Er; [|reflexivity]. exfalso.
       apply find_rec_some in Er. destruct Er as [Ir Eo]. destruct (L r Ir) as (_ & _ & X & _).
